@@ -100,9 +100,12 @@ class Hist:
                 s = rng.choice(sorted(self.watched_sigs))
                 stats["act_raise"] += 1
                 acts.append(f"R,{s}")
-            elif c < 0.94:
+            elif c < 0.93:
                 stats["act_exit"] += 1
                 acts.append(f"X,{rng.choice(PIDS)},{rng.choice([0, 256, 9])}")
+            elif c < 0.97:
+                stats["act_stop"] += 1
+                acts.append("K")
             else:
                 acts.append(self.gen_reg_action(depth + 1, behs) if self.depth_budget > 0 else "E,0")
                 self.depth_budget -= 1
@@ -201,8 +204,8 @@ class Hist:
 
     def step(self):
         c = rng.random()
-        w = {"C17": [0.28, 0.08, 0.22, 0.06, 0.05, 0.03, 0.03], "C18": [0.20, 0.07, 0.10, 0.20, 0.18, 0.05, 0.03]}[self.focus]
-        # thresholds: register, cancel, clock, ready, raise/inpoll, exit, (rest: tick)
+        w = {"C17": [0.28, 0.08, 0.22, 0.06, 0.05, 0.03, 0.03, 0.05], "C18": [0.20, 0.07, 0.10, 0.20, 0.18, 0.05, 0.03, 0.05]}[self.focus]
+        # thresholds: register, cancel, clock, ready, raise/inpoll, exit, tickhang, run (rest: tick)
         t = list(itertools.accumulate(w))
         if c < t[0]:
             self.reg_top()
@@ -234,6 +237,9 @@ class Hist:
                     self.ops.append(f"raise {s}"); stats["raise_pre"] += 1
                 else:
                     self.ops.append(f"inpoll {s}"); stats["raise_inpoll"] += 1
+                if len(self.watched_sigs) > 1 and rng.random() < 0.4:
+                    s2 = rng.choice(sorted(self.watched_sigs - {s}))
+                    self.ops.append(f"raise {s2}"); stats["raise_second_signal"] += 1
             else:
                 self.reg_top("signal")
         elif c < t[5]:
@@ -243,6 +249,8 @@ class Hist:
             stats["exit"] += 1
         elif c < t[6]:
             self.ops.append("tickhang"); stats["tickhang"] += 1
+        elif c < t[7]:
+            self.ops.append("run"); stats["run"] += 1
         else:
             self.ops.append("tick"); stats["tick"] += 1
 
@@ -319,7 +327,7 @@ def exhaustive(prop):
     else:
         for timer, later, fd, sig, err, shape in itertools.product(
                 (0, 1), (0, 1), (0, 1), ("none", "pre", "in", "cbt", "cbl"), ("none", "t", "l"),
-                ("one", "two", "cancel2", "cancelself")):
+                ("one", "two", "cancel2", "cancelself", "stop", "stop2sig")):
             if sig == "cbt" and not timer: continue
             if sig == "cbl" and not later: continue
             if err == "t" and not timer: continue
@@ -334,14 +342,17 @@ def exhaustive(prop):
             if lacts: ops.append("beh 1 0 " + " ".join(lacts))
             if shape == "cancel2": ops.append("beh 3 0 C,4")
             if shape == "cancelself": ops.append("beh 3 0 C,3")
+            if shape in ("stop", "stop2sig"): ops.append("beh 5 0 K")
+            if shape in ("stop", "stop2sig"): ops.append("signal 5 10 0")
             ops.append("signal 3 23 2")
-            if shape != "one": ops.append("signal 4 23 6")
+            if shape not in ("one", "stop2sig"): ops.append("signal 4 23 6")
             ops.append("io 2 100 1 6")
             if timer: ops.append("timer 0 0 0")
             if later: ops.append("later 1 0")
             if fd: ops.append("ready 100 1")
             if sig == "pre": ops.append("raise 23")
             if sig == "in": ops.append("inpoll 23")
+            if shape == "stop2sig" and sig != "none": ops.append("raise 10")
             ops += ["tick", "ready 100 0", "tick", "tick", "destroy", "end"]
             out.append(ops)
     return out
@@ -355,7 +366,8 @@ if a.tier == "exhaustive":
              "{none, register timer past/now/future, register later, cancel other, cancel third}; tick, clock, tick, tick, destroy"
              if a.prop == "C17" else
              "C18: {timer due} x {later} x {fd ready} x {signal none/before/inside wait/from timer cb/from later cb} x "
-             "{errno set by timer cb/later cb/not} x {1 watcher, 2, first cancels second, first cancels itself}")
+             "{errno set by timer cb/later cb/not} x {1 watcher, 2, first cancels second, first cancels itself, "
+             "a watcher that calls tickit_stop, a second lower-numbered signal whose watcher calls tickit_stop}")
     for h in hs:
         lines += h
     with open(a.out, "w") as f:
